@@ -16,6 +16,58 @@ def digits(name):
     return [int(ch, 16) for ch in name[1:]]
 
 
+GARBAGE = 10 ** 6 + 7
+
+
+def _wrap(vtype, p):
+    """embed the integer p in a value of the given type"""
+    import numpy as np
+    import sympy
+    from fractions import Fraction
+    if vtype == 'int':
+        return p
+    if vtype == 'float':
+        return float(p)
+    if vtype == 'frac':
+        return Fraction(p)
+    if vtype == 'npfloat':
+        return np.float64(p)
+    if vtype == 'sympyint':
+        return sympy.Integer(p)
+    if vtype == 'symbol':
+        return sympy.Symbol(f'v{abs(p)}') * (1 if p >= 0 else -1) if p else sympy.Integer(0)
+    if vtype == 'str':
+        return (f'v{p}' if p > 0 else f'-v{-p}') if p else '0'
+    if vtype == 'array':
+        return np.array([p, 2 * p])
+    raise ValueError(vtype)
+
+
+def _tag(v):
+    """recover the embedded integer from whatever an accessor returned (GARBAGE if it is not of the expected form)"""
+    import numpy as np
+    import sympy
+    from fractions import Fraction
+    try:
+        if isinstance(v, np.ndarray):
+            f = v.reshape(-1)
+            if f.size == 2 and f[1] == 2 * f[0] and f[0] == int(f[0]):
+                return int(f[0])
+            return GARBAGE
+        if isinstance(v, sympy.Basic):
+            if v.is_Integer:
+                return int(v)
+            c, sym = v.as_coeff_Mul()
+            if c.is_Integer and isinstance(sym, sympy.Symbol) and sym.name[:1] == 'v' and sym.name[1:].isdigit():
+                return int(c) * int(sym.name[1:])
+            return GARBAGE
+        if isinstance(v, (int, float, Fraction, np.floating, np.integer)) and v == int(v):
+            return int(v)
+    except Exception:   # noqa: BLE001
+        pass
+    return GARBAGE
+
+
 def run_job(job):
     import kdriver as K
     from drive_ops import algebra_options
@@ -46,6 +98,11 @@ def run_job(job):
             vals.append(PRIMES[len(vals) % len(PRIMES)] + 1000 * (len(vals) // len(PRIMES)))
         vals = [v if rng.random() < 0.7 else -v for v in vals]
         valid, supplied, build = True, [], None
+        # value type of this case: the supplied integer p is embedded in a value of that type (wrap) and recovered from
+        # whatever the accessors return (tag); 'str' values are sympified by the constructor
+        vtype = rng.choice(job.get('vtypes') or ['int'])
+        wrap = lambda p_, vt=vtype: _wrap(vt, p_)        # noqa: E731
+        W = lambda seq: [wrap(x) for x in seq]            # noqa: E731
         if graded:
             gs = sorted(rng.sample(range(d + 1), rng.randint(1, d + 1)))
             ks = grade_keys(gs)
@@ -55,32 +112,32 @@ def run_job(job):
         vs = vals[:len(ks)]
         if form == 'kv_int':
             supplied = [[digits(n), v] for n, v in zip(kn, vs)]
-            build = lambda: alg.multivector(values=list(vs), keys=tuple(ks))
+            build = lambda: alg.multivector(values=W(vs), keys=tuple(ks))
         elif form == 'kv_name':
             supplied = [[digits(n), v] for n, v in zip(kn, vs)]
-            build = lambda: alg.multivector(keys=tuple(kn), values=list(vs))
+            build = lambda: alg.multivector(keys=tuple(kn), values=W(vs))
         elif form == 'mapping_int':
             supplied = [[digits(n), v] for n, v in zip(kn, vs)]
-            build = lambda: alg.multivector(dict(zip(ks, vs)))
+            build = lambda: alg.multivector(dict(zip(ks, W(vs))))
         elif form == 'mapping_name':
             supplied = [[digits(n), v] for n, v in zip(kn, vs)]
-            build = lambda: alg.multivector(dict(zip(kn, vs)))
+            build = lambda: alg.multivector(dict(zip(kn, W(vs))))
         elif form == 'kwargs':
             sp = [respell(n) if rng.random() < 0.7 else n for n in kn]
             order = list(range(len(sp)))
             rng.shuffle(order)
             supplied = [[digits(sp[i]), vs[i]] for i in order]
-            build = lambda: alg.multivector(**{sp[i]: vs[i] for i in order})
+            build = lambda: alg.multivector(**{sp[i]: wrap(vs[i]) for i in order})
         elif form == 'grades_list':
             gs = sorted(rng.sample(range(d + 1), rng.randint(1, min(2, d + 1))))
             ks2 = grade_keys(gs)
             vs2 = vals[:len(ks2)]
             supplied = [[digits(alg.bin2canon[k]), v] for k, v in zip(ks2, vs2)]
-            build = lambda: alg.multivector(list(vs2), grades=tuple(gs))
+            build = lambda: alg.multivector(W(vs2), grades=tuple(gs))
         elif form == 'full':
             vs2 = vals[:len(bins)]
             supplied = [[digits(alg.bin2canon[k]), v] for k, v in zip(bins, vs2)]
-            build = lambda: alg.multivector(list(vs2))
+            build = lambda: alg.multivector(W(vs2))
         elif form == 'helper':
             helper = rng.choice(['scalar', 'vector', 'bivector', 'evenmv', 'oddmv', 'pseudoscalar', 'pseudovector', 'purevector'])
             g = {'scalar': [0], 'vector': [1], 'bivector': [2], 'evenmv': [x for x in range(d + 1) if x % 2 == 0],
@@ -92,15 +149,15 @@ def run_job(job):
             vs2 = vals[:len(ks2)]
             supplied = [[digits(alg.bin2canon[k]), v] for k, v in zip(ks2, vs2)]
             if rng.random() < 0.5 or helper == 'purevector':
-                build = (lambda: getattr(alg, helper)(list(vs2))) if helper != 'purevector' else (lambda: alg.purevector(list(vs2), grade=g[0]))
+                build = (lambda: getattr(alg, helper)(W(vs2))) if helper != 'purevector' else (lambda: alg.purevector(W(vs2), grade=g[0]))
             else:
                 sp = [respell(alg.bin2canon[k]) for k in ks2]
                 supplied = [[digits(s), v] for s, v in zip(sp, vs2)]
-                build = lambda: getattr(alg, helper)(**{s: v for s, v in zip(sp, vs2)})
+                build = lambda: getattr(alg, helper)(**{s: wrap(v) for s, v in zip(sp, vs2)})
         elif form == 'grades_kv':
             gs = sorted({bin(k).count('1') for k in ks} | ({rng.randint(0, d)} if rng.random() < 0.5 else set()))
             supplied = [[digits(n), v] for n, v in zip(kn, vs)]
-            build = lambda: alg.multivector(keys=tuple(ks), values=list(vs), grades=tuple(gs))
+            build = lambda: alg.multivector(keys=tuple(ks), values=W(vs), grades=tuple(gs))
         elif form == 'blade':
             nm = respell(rng.choice(names))
             supplied = [[digits(nm), 1]]
@@ -129,7 +186,7 @@ def run_job(job):
             build = lambda: alg.multivector(keys=tuple(ks2), values=list(vals[:len(ks2)]))
         else:
             continue
-        ev = {'id': eid, 'kind': 'construct', 'u': u, 'graded': graded, 'form': form, 'valid': valid, 'raised': '',
+        ev = {'id': eid, 'kind': 'construct', 'u': u, 'graded': graded, 'form': form, 'valid': valid, 'raised': '', 'vtype': vtype,
               'supplied': supplied, 'items': {'keys': [], 'coefs': []}, 'reads': [], 'contains': [], 'grade': [], 'full': [],
               'mapped': {'keys': [], 'coefs': []}, 'filtered': [0, [], []]}
         try:
@@ -142,7 +199,7 @@ def run_job(job):
             events.append(ev)
             continue
         try:
-            ev['items'] = {'keys': [int(k) for k, v in mv.items()], 'coefs': [int(v) for k, v in mv.items()]}
+            ev['items'] = {'keys': [int(k) for k, v in mv.items()], 'coefs': [_tag(v) for k, v in mv.items()]}
             # attribute access with spellings: all permutations for small blades, sampled otherwise
             spellings = []
             for nm in names:
@@ -156,21 +213,21 @@ def run_job(job):
             # (a generator OUTSIDE the algebra is not a spelling of one of its blades: the property says
             # nothing about it, so it is not read; see DESIGN.md, Corrections)
             for sp in spellings:
-                ev['reads'].append([digits(sp), int(getattr(mv, sp))])
+                ev['reads'].append([digits(sp), _tag(getattr(mv, sp))])
             ev['contains'] = [[int(b), bool(b in mv)] for b in rng.sample(bins, min(len(bins), 8))] + \
                              [[int(alg.canon2bin[n]), bool(n in mv)] for n in rng.sample(names, min(len(names), 4))]
             for _ in range(3):
                 gs = sorted(rng.sample(range(d + 1), rng.randint(0, d + 1)))
                 g = mv.grade(*gs) if rng.random() < 0.5 or not gs else mv.grade(tuple(gs))
-                ev['grade'].append([gs, [int(k) for k in g.keys()], [int(v) for v in g.values()]])
+                ev['grade'].append([gs, [int(k) for k in g.keys()], [_tag(v) for v in g.values()]])
             for canonical in (True, False):
                 f = mv.asfullmv(canonical=canonical)
-                ev['full'].append([canonical, [int(k) for k in f.keys()], [int(v) for v in f.values()]])
-            mp = mv.map(lambda v: 3 * v + 1)
-            ev['mapped'] = {'keys': [int(k) for k in mp.keys()], 'coefs': [int(v) for v in mp.values()]}
+                ev['full'].append([canonical, [int(k) for k in f.keys()], [_tag(v) for v in f.values()]])
+            mp = mv.map(lambda v: _wrap('symbol' if vtype == 'str' else vtype, 3 * _tag(v) + 1))    # (strings are only sympified by the constructor)
+            ev['mapped'] = {'keys': [int(k) for k in mp.keys()], 'coefs': [_tag(v) for v in mp.values()]}
             t = rng.choice([-50, 0, 10, 40])
-            fl = mv.filter(lambda v: v > t)
-            ev['filtered'] = [t, [int(k) for k in fl.keys()], [int(v) for v in fl.values()]]
+            fl = mv.filter(lambda v: _tag(v) > t)
+            ev['filtered'] = [t, [int(k) for k in fl.keys()], [_tag(v) for v in fl.values()]]
         except Exception as e:   # noqa: BLE001
             ev['raised'] = 'accessor:' + type(e).__name__
         events.append(ev)
